@@ -97,6 +97,9 @@ def net_case(t, tr, prefix, how, n):
         # wait for the library's greeting: the connection has been ACCEPTED and its handshake task runs
         ops += ["rawconn 5 ep#0", f"rawhs 5 {peer} 30", "rawwait 5 greeting"]
     ops.append("close 1" if how == "close" else "dropsock 1")
+    if how == "close":
+        # close() has RETURNED: the very first connection attempt must already be refused (one attempt each, no polling)
+        ops += [f"probe ep#0 {peer}", f"probe ep#1 {peer}"]
     ops += ["probegone ep#0", "probegone ep#1"]
     if "accepted" in prefix:
         ops += ["rawwait 1 eof", "rawwait 2 eof"]
@@ -165,9 +168,26 @@ def accept_error_case(t, tr, how, n):
     return c
 
 
+def registration_pending_case(tr, how, n):
+    """state `handshake done, registration pending`: a SUB socket announces its subscription set to a new peer BEFORE
+    registering it; with a set larger than the transport's buffers and a peer that does not read, the connection stays
+    in that state.  close()/drop must end it too: the peer reaches end-of-stream after reading no more than what can have
+    been in flight — a connection the library still FEEDS after the socket went away is not closed"""
+    count, size, cap = (16, 1 << 20, 6 << 20) if tr == "ipc" else (64, 1 << 20, 40 << 20)
+    ops = ["sock 1 SUB", f"subbig 1 {count} {size}", f"bind 1 {tr}", "rawconn 5 ep#0", "rawhs 5 PUB", "rawwait 5 hs", "pause 200",
+           "close 1" if how == "close" else "dropsock 1", "probegone ep#0", f"rawwait 5 eofcap {cap}"]
+    c = Case(f"SUB:{how}:net-{tr}-registration-pending#{n}", "net", ops, [f"net-{how}", "registration-pending"])
+    c.expect = ("net", "SUB", ["registration-pending"], how)
+    return c
+
+
 def cases(tier, rng):
     out = gen.corpus(ID)
     n = 0
+    for tr in [x for x in netgen.transports() if x in ("tcp4", "ipc")]:
+        for how in ("close", "drop"):
+            out.append(registration_pending_case(tr, how, n))
+            n += 1
     for t in (["PULL", "PUB"] if tier == "quick" else netgen.TYPES9):
         for tr in [x for x in netgen.transports() if x in ("tcp4", "ipc")]:
             for how in ("close", "drop"):
@@ -214,8 +234,16 @@ def oracle(case, lines):
             w = op.split()
             if w[0] == "close" and l != "ok errs=0":
                 return f"close() reported failures: {l}"
+            if w[0] == "probe" and not l.startswith("refused"):
+                return (f"close() has returned, yet the first fresh connection to {w[1]} was not refused: {l} "
+                        "(the listening socket outlives the call)")
+            if w[0] == "probe" and l.endswith("path=1"):
+                return f"close() has returned, yet the IPC socket file of {w[1]} still exists: {l}"
             if w[0] == "probegone" and l != "gone":
                 return f"after {how} the endpoint {w[1]} still accepts connections / its IPC file still exists: {l}"
+            if w[0] == "rawwait" and w[2] == "eofcap" and l != "eof":
+                return (f"after {how} a peer whose registration was still pending (handshake done, the socket still announcing its "
+                        f"subscriptions to it) does not observe end-of-stream — the library keeps feeding the connection: {l}")
             if w[0] == "rawwait" and w[2] == "eof" and l != "eof":
                 return f"after {how} an accepted peer does not observe end-of-stream: {l}"
             if w[0] == "rawwait" and w[2] == "open" and l == "open":
